@@ -4,6 +4,7 @@ import Py4hwV.Schem.Place
 import Py4hwV.Schem.Column
 import Py4hwV.Schem.Track
 import Py4hwV.Schem.Pass
+import Py4hwV.Schem.Pins
 /- C18 driver: runs the verified layout checker `Schem.check` on exported designs / layouts.
    request:  chk | insIns | insOuts | inp | outp | syms | mat | nets
                insIns/insOuts/mat : ';'-separated int lists, each with a leading dummy 0 (so that empty lists survive)
@@ -20,7 +21,10 @@ import Py4hwV.Schem.Pass
    answer:   polylines x0,y0,x1,y1,… (';' separated)                                   (model of routeNetSquare)
    request:  pt | insIns | insOuts | inp | outp | sinkOrd (S,T1,T2,… ';' separated) | wireOrd (S,T,w1,w2,… ';' separated)
    answer:   ok / err:<which> | orders are permutations 0/1 | nets of createNets | markers (0 pass 1 fbStart 2 fbStop) | matrix | nets
-             (nets as wire,src,sp,snk,tp with -1 = None)                  (models of createNets and passthroughCreation) -/
+             (nets as wire,src,sp,snk,tp with -1 = None)                  (models of createNets and passthroughCreation)
+   request:  pins | class number (Schem.Pins.clsOfNat), instanceWidth | names of the in ports | names of the out ports
+   answer:   width,height | Fits,Tidy,Realizable (0/1) | getPortSinkPos of in port 0..nIn (x,y or _ = raises; the last one is a port
+             that is not the object's) | getPortSourcePos of out port 0..nOut                      (model of the symbol classes) -/
 open Proto Schem
 
 def nat! (i : Int) : Nat := i.toNat
@@ -153,6 +157,18 @@ def handle (line : String) : String :=
         if (trim row).isEmpty then [] else ((trim row).splitOn ",").map parseCell
     let (xs, ys) := Place.placeWith cfg tracks m
     s!"{showInts xs} | {showInts ys}"
+  | ["pins", ck, ii, oo] =>
+    match parseInts ck with
+    | [c, iw] =>
+      match Pins.clsOfNat c.toNat with
+      | some cls =>
+        let sh : Pins.Shape := { cls := cls, iw := iw, ins := (parseInts ii).map nat!, outs := (parseInts oo).map nat! }
+        let showP (o : Option Pt) : String := match o with | some p => s!"{p.1},{p.2}" | none => "_"
+        let si := (List.range (sh.ins.length + 1)).map fun i => showP (sh.sinkPos i)
+        let so := (List.range (sh.outs.length + 1)).map fun i => showP (sh.srcPos i)
+        s!"{sh.width},{sh.height} | {showBool sh.fitsB},{showBool sh.tidyB},{showBool sh.realizableB} | {";".intercalate si} | {";".intercalate so}"
+      | none => "bad-class"
+    | _ => "bad-op"
   | _ => "bad-op"
 
 def main : IO Unit := Proto.run handle
